@@ -31,8 +31,8 @@ ASSUMPTIONS = [
     "(only then do cuts given by Cartesian coordinate select, on the reduced image, the data that matrix indices select)",
 ]
 FLOORS = {
-    "quick": {"slice_at_faces_and_off_centre": 300, "reduced_image_keeps_lower_corner": 60, "table_row": 48, "there_and_back": 12, "name_equals_index": 150, "layout_places_voxels": 80, "layout_inverse": 80},
-    "thorough": {"slice_at_faces_and_off_centre": 1500, "reduced_image_keeps_lower_corner": 300, "table_row": 48, "there_and_back": 12, "name_equals_index": 700, "layout_places_voxels": 400, "layout_inverse": 400},
+    "quick": {"slice_by_name_after_move": 20, "slice_at_faces_and_off_centre": 200, "reduced_image_keeps_lower_corner": 60, "table_row": 48, "there_and_back": 12, "name_equals_index": 150, "layout_places_voxels": 80, "layout_inverse": 80},
+    "thorough": {"slice_by_name_after_move": 100, "slice_at_faces_and_off_centre": 1000, "reduced_image_keeps_lower_corner": 300, "table_row": 48, "there_and_back": 12, "name_equals_index": 700, "layout_places_voxels": 400, "layout_inverse": 400},
 }
 
 
@@ -195,6 +195,24 @@ def run_shard(spec, R):
                         R.check(np.array_equal(by_f.img, np.take(img.img, idx, axis=m)), "name_equals_index",
                                 {"fn": "Image.slice", "dim": dim, "axis": name, "index": m, "cut": cface, "voxel_of_cut": idx, "offset_in_voxel": off, "shape": list(shape)})
                         R.count("slice_at_faces_and_off_centre")
+        # history on the image object: its coordinate system was used above; now the image is moved in place and cut
+        # again through Cartesian names (the cut coordinates come from the independent axis table)
+        if dim >= 2 and k % 2 == 0:
+            dims_ = [float(x) for x in img.dimensions]
+            new_o = [float(x) for x in (np.asarray(img.origin, float) + rng.uniform(1.0, 3.0, size=dim) * np.array(dims_[::-1]))]
+            img.update_metadata(origin=darsia.Coordinate(np.array(new_o)))
+            for m in range(dim):
+                c, s = CO.MATRIX[dim][m]
+                name = CO.NAMES_C[c]
+                for t in range(shape[m]):
+                    centre = np.array([0.5] * dim)
+                    centre[m] = t + 0.5
+                    coord = float(np.asarray(CO.coordinate(dim, shape, dims_, new_o, centre), float)[c])
+                    ok_n, by_n = R.guarded("slice_by_name", lambda: img.slice(coord, name), key=lambda e, w: "C20:image_slice_by_name_fails")
+                    if ok_n:
+                        R.check(np.array_equal(by_n.img, np.take(img.img, t, axis=m)), "name_equals_index",
+                                {"fn": "Image.slice", "dim": dim, "axis": name, "index": m, "t": t, "coord": coord, "shape": list(shape), "history": "coordinate system used, origin moved in place, cut by name"})
+                        R.count("slice_by_name_after_move")
         if k < 2:
             R.sample({"image": desc, "checked": "slice/reduce by name vs index for every axis and cut"})
 
